@@ -263,9 +263,39 @@ def make_admissible(rng, spec, free=False, bounded_sd=False):
             j['sdur'] = 1
 
 
+def add_history(rng, spec, p_pre=0.8, p_mid=0.5, p_post=0.6):
+    """decorate a scenario with a history of synchronous-API calls that must
+    be invisible: inspections before / during / after the run and neutral edit
+    pairs (edge added then removed, job added then removed) before it"""
+    pre = []
+    if rng.random() < p_pre:
+        scheds = [n for n, _, _ in walk(spec) if is_sched(n) and n['jobs']]
+        for _ in range(rng.randint(1, 3)):
+            kind = rng.choice(['inspect', 'edge', 'edge', 'ghost', 'sanitize'])
+            if kind in ('inspect', 'sanitize'):
+                pre.append([kind])
+                continue
+            s = rng.choice(scheds)
+            ids = [j['id'] for j in s['jobs']]
+            if kind == 'ghost':
+                pre.append(['ghost', s['id'], rng.choice(ids + [None])])
+            elif len(ids) >= 2:
+                req = requirements_closure(s)
+                a, b = rng.sample(ids, 2)
+                direct = {tuple(e) for e in s.get('edges', [])}
+                # adding "a requires b" must not close a cycle nor duplicate an edge
+                if a not in req[b] and (a, b) not in direct:
+                    pre.append(['edge', a, b])
+    spec['history'] = dict(pre=pre, mid=rng.random() < p_mid, post=rng.random() < p_post)
+    return spec
+
+
 def random_spec(seed, profile='generic'):
     rng = random.Random("%s/%s" % (profile, seed))
-    return gen_tree(rng, PROFILES[profile])
+    spec = gen_tree(rng, PROFILES[profile])
+    if rng.random() < PROFILES[profile].get('p_history', 0.3):
+        add_history(rng, spec)
+    return spec
 
 
 # ---------------------------------------------------------------- systematic sweeps
@@ -416,8 +446,11 @@ SWEEPS = {
 
 
 def permute_hashes(spec, rng):
-    """a different iteration order of every job set, same scenario"""
+    """a different iteration order of every job set, same scenario; half of
+    the variants also get a history of invisible synchronous-API calls"""
     spec = copy.deepcopy(spec)
+    if rng.random() < 0.5:
+        add_history(rng, spec)
     for node, _, _ in walk(spec):
         if is_sched(node):
             hs = list(range(len(node['jobs'])))
